@@ -1,0 +1,8 @@
+//! Verification hooks (feature `verif`, off by default).
+//!
+//! Nothing in this module is compiled into a normal build. It contains
+//!  * `io_tap`  : a recorder / fault injector for every file mutation issued through `DBFile`,
+//!  * `sched`   : seeded yield points used to perturb thread interleavings,
+//!  * `facade`  : thin public wrappers over crate-private layers (pager, B+tree, WAL, tuples)
+//!                that contain no logic of their own beyond marshalling.
+pub mod io_tap;
